@@ -17,6 +17,11 @@ ASSUMPTIONS = [
     "ndim >= 65 with ntotal >= 2: find_neighbors returns None (checked_pow(64) overflows) — KnownClass 1, see known_findings.jsonl",
 ]
 
+TRUSTED_EXTRA = [
+    "Base/F32Flocq.v (Flocq binary32 instance of FloatOps, with the classical axioms of Coq's Reals) runs inside the extracted model and the wire checker only; no C20 theorem mentions it",
+    "libm oracle: powf values in the case tables are computed by the harness binary itself (Rust std f32::powf), suite 'libm'",
+]
+
 TWO = 0x40000000
 
 
@@ -82,17 +87,28 @@ def fill_tables(suite, cases):
 def streams(seed, tier):
     rng = random.Random(seed)
     out = []
-    nmax = {"quick": 60, "thorough": 400, "search": 130}[tier]
+    nmax = {"quick": 60, "thorough": 400, "search": 130}[tier]   # "search": after a broken correspondence
 
-    # 1. exhaustive small domain
+    # 1. exhaustive small domain.  Full product up to nfull; beyond it (thorough only) every
+    #    (ntotal, ndim, index) with one radius each, the nine radii rotating with index and ntotal,
+    #    and for ndim = 1 the debug build (whose oracle table has 2*ntotal-1 entries) on every 8th size only.
+    nfull = {"quick": 60, "thorough": 120, "search": 130}[tier]
     cases = []
     for ntotal in range(1, nmax + 1):
         for ndim in range(1, 6):
             for index in range(ntotal):
-                for k, r in enumerate(RADII):
-                    cases.append(nbr_case((ntotal + index + k) % 2, ntotal, ndim, 2, index, r))
-    out.append(Stream("exhaustive-nbr<=%d" % nmax, "topo", "topo.check", cases,
-                      "find_neighbors for every ntotal 1..%d x ndim 1..5 x every index x radii {0,.5,1,1.2,sqrt2,1.5,2,sqrt5,3}, profiles alternating" % nmax))
+                if ntotal <= nfull:
+                    for k, r in enumerate(RADII):
+                        cases.append(nbr_case((ntotal + index + k) % 2, ntotal, ndim, 2, index, r))
+                else:
+                    prof = (ntotal // 8 + index) % 2
+                    if ndim == 1 and ntotal % 8:
+                        prof = 1
+                    cases.append(nbr_case(prof, ntotal, ndim, 2, index, RADII[(index + ntotal + ndim) % 9]))
+    note = "find_neighbors for every ntotal 1..%d x ndim 1..5 x every index x radii {0,.5,1,1.2,sqrt2,1.5,2,sqrt5,3}, profiles alternating" % nfull
+    if nmax > nfull:
+        note += "; ntotal %d..%d x ndim 1..5 x every index with one of the nine radii each (rotating)" % (nfull + 1, nmax)
+    out.append(Stream("exhaustive-nbr<=%d" % nmax, "topo", "topo.check", cases, note))
 
     # 2. exact powers and larger sizes (where a float root is at risk), guards, special radii, many dimensions
     cases = []
@@ -115,7 +131,7 @@ def streams(seed, tier):
             for index in range(min(ntotal, 3)):
                 for k, r in enumerate((bits(0.0), bits(1.0), R_SQRT2, bits(3.0))):
                     cases.append(nbr_case((ntotal + ndim + k) % 2, ntotal, ndim, 2, index, r))
-    nrand = {"quick": 150, "thorough": 1500, "search": 1500}[tier]
+    nrand = {"quick": 100, "thorough": 1500, "search": 1500}[tier]
     for k in range(nrand):
         ntotal = rng.choice([rng.randrange(1, 3000), rng.randrange(1, 300), rng.choice([e ** d for d in (2, 3, 4, 5) for e in range(2, 12) if e ** d < 3000])])
         ndim = rng.choice([1, 2, 2, 3, 3, 4, 5, 6, 7, 8])
@@ -129,7 +145,7 @@ def streams(seed, tier):
 
     # 3. symmetry and monotonicity stated directly on pairs of calls
     cases = []
-    npairs = {"quick": 1500, "thorough": 20000, "search": 6000}[tier]
+    npairs = {"quick": 1000, "thorough": 20000, "search": 6000}[tier]
     for k in range(npairs):
         ntotal = rng.randrange(1, 120 if k % 8 else 700)
         ndim = rng.choice([1, 2, 2, 3, 3, 4, 5])
